@@ -5,6 +5,7 @@
 //	verifharness exec            (case lines on stdin -> implementation output on stdout)
 //	verifharness suites          (list suites)
 //
+// An Exec may return "out<TAB>obs": the observation is appended to the case line for the driver.
 // A case is one self-contained line "<suite> <args…>"; the same line is fed to the Lean driver.
 package main
 
@@ -98,7 +99,15 @@ func main() {
 			if strings.TrimSpace(line) == "" {
 				continue
 			}
-			fmt.Fprintln(w, execLine(line))
+			out := execLine(line)
+			if i := strings.IndexByte(out, '\t'); i >= 0 && os.Getenv("VERIF_EXEC_OBS") != "" {
+				// replay mode: print the case line completed with the fresh observation, then the output
+				fmt.Fprintln(w, "CASE "+line+" "+out[i+1:])
+				out = out[:i]
+			} else if i >= 0 {
+				out = out[:i]
+			}
+			fmt.Fprintln(w, out)
 			w.Flush()
 		}
 	case "run":
@@ -125,6 +134,11 @@ func main() {
 		g := &Gen{Tier: *tier, Seed: *seed, R: NewRand(uint64(*seed)*0x9E3779B97F4A7C15 + hashString(*suite)), Counters: map[string]int{}}
 		g.emit = func(line string) {
 			out := execLine(line)
+			// an Exec may return "out<TAB>obs": obs (what the implementation produced, e.g. wire bytes with
+			// random mask keys) is appended to the case line so that the driver can examine it
+			if i := strings.IndexByte(out, '\t'); i >= 0 {
+				line, out = line+" "+out[i+1:], out[:i]
+			}
 			cw.WriteString(line)
 			cw.WriteByte('\n')
 			iw.WriteString(out)
